@@ -50,6 +50,11 @@ func genFunc(w *World, fi *FuncInfo, mode string) (res *FuncResult) {
 		}
 		v := fv.havocVal(st, o.Name(), o.Type())
 		st.vars[o] = v
+		if mode == "safety" {
+			if _, isPtr := types.Unalias(o.Type()).Underlying().(*types.Pointer); isPtr {
+				fv.addFact(st, mkNot(mkEq(v.T, "nil")))
+			}
+		}
 	}
 	if fi.Decl.Recv != nil {
 		for _, f := range fi.Decl.Recv.List {
